@@ -141,7 +141,7 @@ def run(ctx, rep):
             if ntype != F_(H, "n_type"):
                 msgs.append("n_type is %s" % show(ntype))
         # typed dispatch guards
-        name_t = _name_term(an, calls)
+        name_t = _name_term(an, calls, st, name)
         is_gnu = _name_is(an, st, name_t, GNU) if name_t is not None else None
         nty = _ntype_term(an, calls)
         if variant in ("GnuBuildId", "GnuAbiTag"):
@@ -226,8 +226,13 @@ def run(ctx, rep):
                         "core: slice pattern matching against a constant, str::from_utf8, trim_end_matches"]
 
 
-def _name_term(an, calls):
-    """the term of the name slice on this path = payload of the first get on the data parameter"""
+def _name_term(an, calls, st=None, name_norm=None):
+    """the term of the name slice on this path: the value whose length the path tests and whose provenance is the name range
+    (so it is found whether the slicing is done in parse_at itself or in a helper); else the payload of the first get on the data parameter"""
+    if st is not None and name_norm is not None:
+        for f in sorted(st.facts, key=repr):
+            if f[0] == "eq" and isinstance(f[1], type(T.param(1))) and f[1].op == "len" and norm(f[1].args[0]) == name_norm:
+                return f[1].args[0]
     for c in calls:
         if c.declared_norm == "[T]::get" or c.callee_qual.endswith("ReadBytesExt<'data>>::get_bytes"):
             if c.args[0] is T.param(5):
